@@ -51,4 +51,7 @@ if [ "${1:-}" = "setup" ]; then
   ./bin/loxmc setup
   exit $?
 fi
+# Thorough tier: families enumerated through family.each stop gracefully (reported
+# as a cap, exit 0, exhaustive:false) once the run is older than this.
+if [ "${2:-}" = "thorough" ]; then export VERIF_BUDGET_S="${VERIF_BUDGET_S:-1500}"; fi
 exec ./bin/loxmc "$@"
